@@ -652,7 +652,7 @@ def run(ck: Check) -> None:
     c09_defaults.campaign_defaults(ck, 260 if quick else 2600)
     from . import c09_order  # the reuse / collapse / default-member family and the order of the post-passes of Parser.parse
 
-    c09_order.campaign_order(ck, 260 if quick else 2600, full_scope=not quick)
+    c09_order.campaigns(ck, quick)
     ck.search_hooks.append(c09_order.search_order_first)
     ck.search_hooks.append(c09_defaults.search_defaults)
     ck.search_hooks.append(search_enums)
